@@ -219,17 +219,23 @@ def run(tier, replay=None):
 
     # 1. design level, no deviation
     r = vlib.tlc("H2Conn", write_cfg(wd, "mc.cfg", SMALL, spec="FairSpec", depth=5 if thorough else 4), PID,
-                 workers=workers, timeout=3000 if thorough else 900, coverage=thorough)
+                 workers=8, timeout=3000 if thorough else 900, xmx="8g" if thorough else "4g")
     rep.add_tlc(r)
     if r["violated"]:
         rep.violation("spec:" + r["violated"], "the specification itself violates %s" % r["violated"], r["out"])
     if thorough:
-        vlib.require_actions_covered(r, ACTIONS)
+        # vacuity: every action must be taken somewhere (TLC -coverage runs out of memory on this module, so each
+        # action gets a "never happens" property that has to be refuted)
+        for act in ACTIONS:
+            rv = vlib.tlc("H2Conn", write_cfg(wd, "mc_vac.cfg", SMALL, depth=4, checks="PROPERTIES Never_%s" % act), PID,
+                          workers=2, timeout=600)
+            if not rv["violated"]:
+                raise vlib.ToolError("vacuous model: action %s is never taken" % act)
     if thorough:
         # every state reachable by <= 3 valid frames, then every frame (the depth-bounded run above covers the
         # arbitrary sequences of length <= 3/4 from the start of the connection)
         r2 = vlib.tlc("H2Conn", write_cfg(wd, "mc_prefix.cfg", SMALL, spec="FairSpec", depth=1, valid=3, emit="mc"),
-                      PID, workers=workers, timeout=3000)
+                      PID, workers=8, timeout=3000, xmx="8g")
         rep.add_tlc(r2)
         if r2["violated"]:
             rep.violation("spec:" + r2["violated"], "the specification itself violates %s" % r2["violated"], r2["out"])
